@@ -616,6 +616,157 @@ def ti1d_checks(rng, ncases):
         ok("heisenberg-ops", first_bad(H, ref) is None, {"nspin": n})
 
 
+# --------------------------------------------------------------------------- copy(new_dof) returns the same basis
+def same_ops(orig, cp, symbols, cls, info, mk=lambda s: s):
+    ok(cls, cp.nbas == orig.nbas, {**info, "what": "nbas of the copy", "impl": cp.nbas, "expected": orig.nbas})
+    for sym in symbols:
+        try:
+            A = np.asarray(orig.op_mat(mk(sym)))
+        except Exception:
+            continue          # symbol not supported by this configuration
+        try:
+            Bm = np.asarray(cp.op_mat(mk(sym)))
+            bad = first_bad(Bm, A)
+            ok(cls, bad is None, {**info, "symbol": sym, "what": "b.copy(new_dof).op_mat(symbol) != b.op_mat(symbol)", **(bad_detail(bad) or {})})
+        except Exception as e:
+            ok(cls, False, {**info, "symbol": sym, "what": "op_mat of the copy raised", "exception": repr(e)})
+
+
+SHO_COPY_SYMS = ["x", "x^2", "x^3", "x x", "p", "p^2", "x p", "p x", "x dx", "dx x", "dx", "dx^2", "I", "n", "b", r"b^\dagger b"]
+SINE_COPY_SYMS = ["I", "x", "x^2", "x^3", "dx", "p", "p^2", "dx^2", "x dx", "x^2 dx", "x^2 p^2", "x p^2", "x^3 p^2"]
+
+
+def copy_checks(omegas):
+    for omega in omegas[:3]:
+        for N in (1, 3, 5):
+            for x0 in (0.0, 0.7, -3.0):
+                for dvr in (False, True):
+                    for gxp in (False, True):
+                        kw = {"omega": omega, "nbas": N, "x0": x0, "dvr": dvr, "general_xp_power": gxp}
+                        b = B.BasisSHO("v", **kw)
+                        try:
+                            c = b.copy(("Q", "v"))
+                        except Exception as e:
+                            ok("basis-copy", False, {"basis": "BasisSHO", "kwargs": kw, "what": "copy raised", "exception": repr(e)})
+                            continue
+                        same_ops(b, c, SHO_COPY_SYMS, "basis-copy", {"basis": "BasisSHO", "kwargs": kw})
+    for N in (1, 4):
+        b = B.BasisHopsBoson("h", N)
+        same_ops(b, b.copy("g"), [r"\tilde{b}^\dagger", r"\tilde{b}", r"b^\dagger b", "I"], "basis-copy", {"basis": "BasisHopsBoson", "kwargs": {"nbas": N}})
+    for sq in ([0, 0], [1, -1]):
+        b = B.BasisHalfSpin("s", sq)
+        c = b.copy("t")
+        same_ops(b, c, ["I", "sigma_x", "sigma_y", "sigma_z", "sigma_+", "sigma_-", "sigma_z sigma_x"], "basis-copy", {"basis": "BasisHalfSpin", "kwargs": {"sigmaqn": sq}})
+        ok("basis-copy", np.array_equal(b.sigmaqn, c.sigmaqn), {"basis": "BasisHalfSpin", "what": "sigmaqn of the copy"})
+    for sq in (None, [0, 2], [[0, 0], [1, 0]]):
+        b = B.BasisSimpleElectron("e") if sq is None else B.BasisSimpleElectron("e", sigmaqn=sq)
+        c = b.copy("f")
+        same_ops(b, c, [r"a^\dagger", "a", r"a^\dagger a", "I"], "basis-copy", {"basis": "BasisSimpleElectron", "kwargs": {} if sq is None else {"sigmaqn": sq}})
+        ok("basis-copy-sigmaqn", np.array_equal(b.sigmaqn, c.sigmaqn), {"basis": "BasisSimpleElectron", "kwargs": {"sigmaqn": sq}, "what": "sigmaqn of the copy", "impl": c.sigmaqn.tolist(), "expected": b.sigmaqn.tolist()})
+        if sq is not None:
+            m_ = TI1DModel([b], [Op(r"a^\dagger a", "e", 1.0)], [], 2)
+            ok("basis-copy-sigmaqn", all(np.array_equal(x.sigmaqn, b.sigmaqn) for x in m_.basis), {"basis": "BasisSimpleElectron", "kwargs": {"sigmaqn": sq}, "what": "TI1DModel cells keep the quantum numbers of the unit cell", "impl": [x.sigmaqn.tolist() for x in m_.basis], "expected": b.sigmaqn.tolist()})
+    d_ = B.BasisDummy("d", 1, [3])
+    ok("basis-copy-sigmaqn", np.array_equal(d_.copy("e").sigmaqn, d_.sigmaqn), {"basis": "BasisDummy", "what": "sigmaqn of the copy"})
+    for n in (2, 3):
+        dofs, nd = ["e%d" % i for i in range(n)], ["f%d" % i for i in range(n)]
+        for cls_ in (B.BasisMultiElectron, B.BasisMultiElectronVac):
+            b = cls_(dofs, [0] + [1] * (n - 1)) if cls_ is B.BasisMultiElectron else cls_(dofs)
+            c = b.copy(nd)
+            for i in range(n):
+                for j in range(n):
+                    A = np.asarray(b.op_mat(Op(r"a^\dagger a", [dofs[i], dofs[j]])))
+                    C = np.asarray(c.op_mat(Op(r"a^\dagger a", [nd[i], nd[j]])))
+                    ok("basis-copy", first_bad(C, A) is None, {"basis": cls_.__name__, "n": n, "symbol": "a^dagger a", "i": i, "j": j})
+            ok("basis-copy", np.array_equal(b.sigmaqn, c.sigmaqn), {"basis": cls_.__name__, "what": "sigmaqn of the copy"})
+    for nbas, xi, xf, endpoint in ((4, 0.0, 1.0, False), (3, -1.3, 2.1, True)):
+        for dvr in (False, True):
+            kw = {"nbas": nbas, "xi": xi, "xf": xf, "endpoint": endpoint, "dvr": dvr}
+            b = B.BasisSineDVR("q", **kw)
+            cls = "basis-copy-sinedvr-drops-flags" if dvr else "basis-copy"
+            try:
+                c = b.copy("r")
+            except Exception as e:
+                ok(cls, False, {"basis": "BasisSineDVR", "kwargs": kw, "what": "copy raised", "exception": repr(e)})
+                continue
+            same_ops(b, c, SINE_COPY_SYMS, cls, {"basis": "BasisSineDVR", "kwargs": kw})
+            ok(cls, c.dvr == b.dvr, {"basis": "BasisSineDVR", "kwargs": kw, "what": "dvr flag of the copy", "impl": bool(c.dvr), "expected": bool(b.dvr)})
+    b = B.BasisSineDVR("q", 3, 0.0, 1.0, quadrature=True)
+    c = b.copy("r")
+    ok("basis-copy-sinedvr-drops-flags", c.quadrature == b.quadrature, {"basis": "BasisSineDVR", "kwargs": {"nbas": 3, "xi": 0.0, "xf": 1.0, "quadrature": True}, "what": "quadrature flag of the copy (needed by op_mat for non-analytic symbols)", "impl": bool(c.quadrature), "expected": True})
+    for kw in ({}, {"nbas": 2}):
+        b = B.BasisDummy("d", **kw)
+        try:
+            c = b.copy("e")
+            same_ops(b, c, ["I"], "basis-copy-dummy-raises", {"basis": "BasisDummy", "kwargs": kw})
+        except Exception as e:
+            ok("basis-copy-dummy-raises", False, {"basis": "BasisDummy", "kwargs": kw, "what": "copy raised", "exception": repr(e)})
+
+
+def ti1d_shifted_checks():
+    """unit cell = one electronic level + one oscillator whose equilibrium sits at x0 (plain and DVR):
+       h_i = 1/2 p^2 + 1/2 w^2 (x-x0)^2 + g n (x-x0),  h_ij = t (a+_i a_i+1 + h.c.) + kappa x_i x_i+2 (wraps)"""
+    omega, nb, g, t, kappa, ncell = 0.5, 3, 0.3, 0.2, 0.05, 3
+    for x0 in (0.0, 1.5, -0.75):
+        for dvr in (False, True):
+            unit = [B.BasisSimpleElectron("e"), B.BasisSHO("v", omega, nb, x0=x0, dvr=dvr)]
+            local = [Op("p^2", "v", 0.5), Op("x^2", "v", 0.5 * omega ** 2), Op("x", "v", -omega ** 2 * x0), Op("I", "v", 0.5 * omega ** 2 * x0 ** 2),
+                     Op(r"a^\dagger a", "e") * Op("x", "v") * g, Op(r"a^\dagger a", "e", -g * x0)]
+            nonlocal_ = [Op(r"a^\dagger a", [(0, "e"), (1, "e")], t), Op(r"a^\dagger a", [(1, "e"), (0, "e")], t), Op("x x", [(0, "v"), (2, "v")], kappa)]
+            info = {"omega": omega, "nbas": nb, "x0": x0, "dvr": dvr, "ncell": ncell}
+            try:
+                H = np.asarray(Mpo(TI1DModel(unit, local, nonlocal_, ncell)).todense())
+            except Exception as e:
+                ok("ti1d-shifted-cell", False, {**info, "exception": repr(e)})
+                continue
+            big = nb + 4
+            X = xref(omega, big, x0)
+            P = pref(omega, big)
+            x, p2 = X[:nb, :nb], (P @ P)[:nb, :nb].real
+            x2 = (x @ x) if dvr else (X @ X)[:nb, :nb]       # documented DVR convention: functions of the truncated x
+            eye = np.eye(nb)
+            up = np.array([[0, 0], [1.0, 0]])
+            num = up @ up.T
+            dims = [2, nb] * ncell
+            ref = np.zeros((int(np.prod(dims)),) * 2)
+            for i in range(ncell):
+                e, v = 2 * i, 2 * i + 1
+                ref += embed(dims, {v: 0.5 * p2 + 0.5 * omega ** 2 * (x2 - 2 * x0 * x + x0 ** 2 * eye)}) + g * embed(dims, {e: num, v: x - x0 * eye})
+                j = (i + 1) % ncell
+                ref += t * (embed(dims, {e: up, 2 * j: up.T}) + embed(dims, {e: up.T, 2 * j: up}))
+                k = (i + 2) % ncell
+                ref += kappa * embed(dims, {v: x, 2 * k + 1: x})
+            if dvr:
+                U = kron_all([np.eye(2), np.asarray(unit[1].dvr_v)] * ncell)
+                H = U @ H @ U.T
+            bad = first_bad(H, ref)
+            ok("ti1d-shifted-cell", bad is None, {**info, "what": "TI1DModel with a shifted-origin unit-cell oscillator vs the documented Hamiltonian", **(bad_detail(bad) or {})})
+
+
+def tree_aux_checks():
+    try:
+        from renormalizer.tn import BasisTree
+    except Exception as e:
+        ok("tree-aux-copy", False, {"what": "renormalizer.tn not importable", "exception": repr(e)})
+        return
+    blist = [B.BasisSHO("v0", 0.7, 3, x0=0.6), B.BasisHalfSpin("s"), B.BasisSHO("v1", 1.3, 4, x0=-1.1, dvr=True), B.BasisSimpleElectron("e"),
+             B.BasisSineDVR("q", 3, 0.0, 2.0, endpoint=True), B.BasisHopsBoson("h", 3)]
+    syms = {"BasisSHO": SHO_COPY_SYMS, "BasisHalfSpin": ["sigma_x", "sigma_y", "sigma_z"], "BasisSimpleElectron": [r"a^\dagger", "a"],
+            "BasisSineDVR": SINE_COPY_SYMS, "BasisHopsBoson": [r"\tilde{b}^\dagger", r"\tilde{b}"]}
+    for shape in ("linear", "binary"):
+        try:
+            tree2 = getattr(BasisTree, shape)(blist).add_auxiliary_space()
+        except Exception as e:
+            ok("tree-aux-copy", False, {"tree": shape, "exception": repr(e)})
+            continue
+        by_dof = {b.dofs: b for b in tree2.basis_list}
+        for b in blist:
+            q = by_dof.get((("Q", b.dofs),))
+            ok("tree-aux-copy", q is not None and b.dofs in by_dof, {"tree": shape, "basis": type(b).__name__, "what": "P / Q pair present"})
+            if q is not None:
+                same_ops(b, q, syms[type(b).__name__], "tree-aux-copy", {"tree": shape, "basis": type(b).__name__, "dof": str(b.dofs)})
+
+
 def main():
     pl = json.load(sys.stdin)
     rng = np.random.default_rng(int(pl.get("seed", 0)) + 16)
@@ -628,6 +779,9 @@ def main():
     sine_checks(sine_cases)
     spin_checks()
     electron_checks()
+    copy_checks(omegas)
+    ti1d_shifted_checks()
+    tree_aux_checks()
     holstein_checks(rng, 40 if thorough else 12)
     spinboson_checks(rng, 20 if thorough else 6)
     ti1d_checks(rng, 40 if thorough else 12)
